@@ -11,6 +11,8 @@ import (
 	"time"
 
 	"go.nanomsg.org/mangos/v3"
+	"go.nanomsg.org/mangos/v3/transport/ipc"
+	"go.nanomsg.org/mangos/v3/transport/ws"
 
 	"verifharness/hx"
 	"verifharness/mon"
@@ -759,6 +761,29 @@ func runDeferred(c *mon.Case, sp spec) {
 // inherit: options set on the socket are read back from objects created afterwards
 // =============================================================================
 
+type extraOpt struct {
+	n string
+	v interface{}
+}
+
+// inheritExtras lists, per transport, harmless creation-time options other than the inherited ones.
+func inheritExtras(tr string, server bool) []extraOpt {
+	switch tr {
+	case "tcp", "tls+tcp":
+		return []extraOpt{{mangos.OptionNoDelay, true}, {mangos.OptionKeepAlive, true}}
+	case "ws", "wss":
+		if server {
+			return []extraOpt{{ws.OptionWebSocketCheckOrigin, false}}
+		}
+		return []extraOpt{{mangos.OptionNoDelay, true}}
+	case "ipc":
+		if server {
+			return []extraOpt{{ipc.OptionIpcSocketPermissions, uint32(0600)}}
+		}
+	}
+	return nil
+}
+
 func runInherit(c *mon.Case, sp spec) {
 	proto, tr := sp.Proto, sp.Tran
 	s := newSock(c, proto)
@@ -810,6 +835,48 @@ func runInherit(c *mon.Case, sp spec) {
 		c.Inconclusive("harness: NewListener(%s): %v", tr, err)
 	} else {
 		check("listener", l)
+	}
+	// the same with endpoints configured at creation with some other option of their
+	// transport: what the socket provides is inherited unless that very option is given
+	for _, x := range inheritExtras(tr, false) {
+		o := tlsOpts(tr, false)
+		if o == nil {
+			o = map[string]interface{}{}
+		}
+		o[x.n] = x.v
+		if d, err := s.NewDialer(dialAddr(tr), o); err != nil {
+			c.Inconclusive("harness: NewDialer(%s, %s): %v", tr, x.n, err)
+		} else {
+			check("dialer+"+x.n, d)
+		}
+	}
+	for _, x := range inheritExtras(tr, true) {
+		o := tlsOpts(tr, true)
+		if o == nil {
+			o = map[string]interface{}{}
+		}
+		o[x.n] = x.v
+		if l, err := s.NewListener(hx.ListenAddr(tr), o); err != nil {
+			c.Inconclusive("harness: NewListener(%s, %s): %v", tr, x.n, err)
+		} else {
+			check("listener+"+x.n, l)
+		}
+	}
+	// and an explicit value given at creation wins over the socket's
+	{
+		o := tlsOpts(tr, false)
+		if o == nil {
+			o = map[string]interface{}{}
+		}
+		o[mangos.OptionMaxRecvSize] = 1234
+		if d, err := s.NewDialer(dialAddr(tr), o); err == nil {
+			if v, err := d.GetOption(mangos.OptionMaxRecvSize); err == nil {
+				compared++
+				if !reflect.DeepEqual(v, 1234) {
+					c.Violate(fmt.Sprintf("inherit-explicit:dialer.%s/%s", tr, mangos.OptionMaxRecvSize), "%s socket (MAX-RCV-SIZE 4321): a %s dialer created with MAX-RCV-SIZE 1234 returns %v from GetOption", proto, tr, v)
+				}
+			}
+		}
 	}
 	// contexts (transport independent: once, on inproc)
 	if hasCtx(proto) && tr == "inproc" {
